@@ -258,6 +258,10 @@ EXPR_WRAPPERS = {
     ('built_in_join.rs::evaluate_join', 'out += &s;'): 'str_append(&mut out, &s);',
     # atom!(out) is Unifiable::Atom(out.to_string()); ToString for String is the blanket impl over Display (no specification possible)
     ('built_in_join.rs::evaluate_join', 'atom!(out)'): 'atom_of_string(&out)',
+    # line_reader is generic over AsRef<Path> (File::open + BufReader::lines): external, with the assumed specification that
+    # it yields the lines of the named file (spec/io.rs)
+    ('rule_reader.rs::read_facts_and_rules', 'line_reader(file_name)'): 'verif_line_reader(file_name)',
+    ('rule_reader.rs::read_facts_and_rules', 'long_line += &line;'): 'str_append_line(&mut long_line, &line);',
 }
 
 
@@ -711,6 +715,18 @@ class FnEmitter:
                 edits.append((kw.start, opn.start, 'for %s in 0..%s.len()' % (ivar, expr), None))
                 edits.append((opn.end, opn.end, ' let %s = &%s[%s];' % (xvar, expr, ivar), None))
                 self.counts['R3'] = self.counts.get('R3', 0) + 1
+            elif lp['kw'] == 'for' and itername and any(a in [x.strip() for x in con.opts.get('for_next', '').split(',')] for a in aliases[li]):
+                # R14: `for PAT in EXPR { BODY }` over an iterator for which Verus has no for-loop support (an external
+                # iterator type: io::Lines) -> `let mut IT = EXPR; loop { let PAT = match IT.next() { Some(v) => v, None => { break; } }; BODY }`,
+                # the definition of `for` (IntoIterator::into_iter is the identity on iterators).  Only loops named in
+                # the contract option `[opt for_next = NAME]` are rewritten; IT is the name given as iter=IT.
+                kw = toks[lp['kw_idx']]
+                intok = toks[lp['in_idx']]
+                pat = text[toks[next_sig(toks, lp['kw_idx'])].start:toks[prev_sig(toks, lp['in_idx'])].end]
+                expr = text[toks[next_sig(toks, lp['in_idx'])].start:toks[prev_sig(toks, lp['open_idx'])].end]
+                edits.append((kw.start, opn.start, 'let mut %s = %s; loop ' % (itername, expr), None))
+                edits.append((opn.end, opn.end, ('', [], ' let %s = match %s.next() { Some(verif_next_item) => verif_next_item, None => { break; } };' % (pat, itername)), 'block2'))
+                self.counts['R14'] = self.counts.get('R14', 0) + 1
             elif lp['kw'] == 'for' and itername:
                 # R8: name the iterator
                 intok = toks[lp['in_idx']]
